@@ -14,7 +14,7 @@ mkdir -p tests; cp $OUT/seed_demo.rs tests/seed_demo.rs
 echo "== baseline suite WITH change"
 cargo test --offline --lib 2>&1 | grep -E "^test result" | head -2
 echo "== CL1024 unit tests WITH change"
-cargo test --offline --features cl03 --lib cl03 -- cl1024 2>&1 | grep -E "^test result|FAILED" | head -3
+cargo test --offline --features cl03 --lib cl1024 2>&1 | grep -E "^test result|FAILED" | head -3
 echo "== demo WITH change"
 cargo test --offline --features cl03 --test seed_demo 2>&1 | grep -E "^test result|panicked" | head -4
 git checkout -q -- src
